@@ -157,6 +157,19 @@ CLAIMED = {
         note="Trusted: FieldMerge.tla as the reading of section 5.3.2; argument equality after normalisation; the memoising I-spec MergeOpt of the design is not built.",
         technique="TLC evaluation of a transcribed specification algorithm (FieldMerge.tla) on recorded documents vs the real rule",
     ),
+    "C15": dict(
+        category="model_checking",
+        text=("Coerce.tla states Conforms(S, value, type): what an accepted input value must look like (32-bit Int, finite Float, known enum value, exactly the "
+              "declared input-object fields with defaults applied and required fields present, exactly one non-null field for OneOf, no null under non-null). "
+              "For generated input types (list/non-null nesting over built-in scalars, enums, input objects with defaults, recursive and OneOf input objects) "
+              "and type-directed values, broken variants and an edge palette - as runtime values, as literals and through variables - TLC checks every accepted "
+              "result against Conforms; the agreement laws (coerce accepts iff validate reports nothing, for values and literals; value->literal->coerce is the "
+              "identity; ValuesOfCorrectTypeRule accepts iff literal coercion succeeds; variables yield errors xor values; nothing raises) are evaluated on the "
+              "real functions."),
+        design_ref="DESIGN.md 5/C15",
+        note="Agreement laws A1/A1'/A3/A4/A5/A6 are metamorphic relations between library functions; Conforms (A2, A5) is decided by TLC. Custom scalars are outside the statement and excluded.",
+        technique="TLC evaluation of accepted coercion results against Conforms (Coerce.tla) + agreement laws between coercion, validation, literal conversion and the validation rule",
+    ),
     "C16": dict(
         category="model_checking",
         text=("Scalars.tla states the value domains of the built-in scalars and enums over value descriptors (exact rationals as base-2^15 limbs so that 2^31, "
